@@ -43,7 +43,7 @@ type onceListener struct {
 func (l *onceListener) OnResetStream(reason types.StreamResetReason) { atomic.AddInt32(&l.r.resets[l.i], 1) }
 func (l *onceListener) OnDestroyStream()                              { atomic.AddInt32(&l.r.destroys[l.i], 1) }
 
-const onceStepTimeout = 3 * time.Second
+const onceStepTimeout = 20 * time.Second
 
 func (r *onceRig) wait() (onceEv, bool) {
 	select {
